@@ -94,10 +94,11 @@ def run(ctx):
     ncases = 120 if ctx.quick else 1200
     for ci in range(ncases):
         dt = CLI_DT[ci % len(CLI_DT)]
-        n = rng.choice([1, 2, 3, 7, 50, 333, 1000, 1001, 3000])
+        n = rng.choice([1, 2, 3, 7, 50, 333, 1000, 1001, 2000, 3000, 4100])
         xs = column(rng, dt, n)
         n = len(xs)
-        cs = rng.choice([1, 2, 3, 10, 100, 1000, n, n + 1, 1000000]) if n <= 400 else rng.choice([100, 999, 1000, n, n + 1, 1000000])
+        # chunk sizes below, at and above the row count; above 1000 both multiples and non-multiples of 1000
+        cs = rng.choice([1, 2, 3, 10, 100, 1000, n, n + 1, 1000000]) if n <= 400 else rng.choice([100, 999, 1000, 1001, 1500, 2500, n - 1, n, n + 1, 1000000])
         level = rng.choice([0, 3, 8, 12])
         order = rng.choice([None, None, 0, 1, 2, 5])
         nogcd = rng.chance(1, 3)
